@@ -16,6 +16,14 @@ import zlib
 from gen import http_gen as G
 from sim.world import World
 
+try:  # zstd is an optional content coding of aiohttp (Python 3.14 `compression.zstd` or `backports.zstd`)
+    from compression import zstd as _zstd
+except ImportError:  # pragma: no cover
+    try:
+        from backports import zstd as _zstd
+    except ImportError:
+        _zstd = None
+
 PROP = "C03"
 LEVEL = "fault_enumeration"
 DESIGN_REF = "9/C03"
@@ -55,7 +63,12 @@ RULE = (
     "offers with and without a body followed by bytes of the upgraded protocol, which the recording application "
     "accepts (installs a byte recorder with protocol.set_parser once the message is read) or declines; about 14 % of "
     "the seeded scenarios, with additional cut sets confined to the body / hand-over region (probes coded_body, "
-    "upgrade_taken, upgraded_bytes_seen)."
+    "upgrade_taken, upgraded_bytes_seen). Bodies made of several independently coded members (multi-member gzip / "
+    "deflate, multi-frame zstd when a zstd module is importable) whose decoded member sizes sit at, next to, at a "
+    "fraction or a multiple of the read buffer limit (read_bufsize 2 ... 65536), under Content-Length, chunked (one "
+    "chunk per member, one chunk, arbitrary chunks) and until-EOF framing: 8 hand-written streams with every single "
+    "cut, and about 8 % of the seeded scenarios with cut sets at / around member ends (probes multi_member_body, "
+    "multi_member_zstd)."
 )
 COMPONENTS = {
     "real": ["web_protocol.RequestHandler (via web.Server)", "client_proto.ResponseHandler", "http_parser (Python) request and "
@@ -163,6 +176,85 @@ def _chunked(data: str, sizes, exts=("",), trailers="") -> str:
     return "".join(out) + "0\r\n" + trailers + "\r\n"
 
 
+def _coded_members(pieces, coding: str, level: int = 3):
+    """Every piece coded on its own and the results concatenated: a multi-member gzip / deflate stream or a
+    multi-frame zstd stream (what a sender produces that compresses block by block or appends to a coded file).
+    -> list of the coded members."""
+    if coding == "zstd":
+        return [G.dec(_zstd.compress(G.enc(p), level)) for p in pieces]
+    return [_coded(p, coding, level) for p in pieces]
+
+
+def _build_m(m):
+    """Stream of a multi-member scenario from its description `m` -> (stream, parts, offset of the body,
+    offsets at which a member / frame ends)."""
+    members = _coded_members(m["pieces"], m["coding"], m["level"])
+    wire = "".join(members)
+    hdrs = list(m["hdrs"])
+    if m["framing"] == "cl":
+        hdrs.append("Content-Length: %d" % len(wire))
+        body = wire
+        rel = [sum(len(x) for x in members[:i + 1]) for i in range(len(members))]
+    elif m["framing"] == "chunked":
+        hdrs.append("Transfer-Encoding: chunked")
+        if m["chunking"] == "member":
+            body, rel = "", []
+            for x in members:
+                body += "%x\r\n%s\r\n" % (len(x), x)
+                rel.append(len(body))
+            body += "0\r\n\r\n"
+        elif m["chunking"] == "one":
+            body = "%x\r\n%s\r\n0\r\n\r\n" % (len(wire), wire)
+            rel = [len("%x\r\n" % len(wire)) + sum(len(x) for x in members[:i + 1]) for i in range(len(members))]
+        else:
+            body = _chunked(wire, m["chunking"])
+            rel = []
+    else:  # until the peer closes
+        body = wire
+        rel = [sum(len(x) for x in members[:i + 1]) for i in range(len(members))]
+    msg = m["start"] + "".join(h + "\r\n" for h in hdrs) + "\r\n"
+    parts = ([m["pre"]] if m["pre"] else []) + [msg + body] + ([m["post"]] if m["post"] else [])
+    mark = len(m["pre"]) + len(msg)
+    s = "".join(parts)
+    return s, parts, mark, [mark + r for r in rel if 0 < mark + r < len(s)]
+
+
+def _m_limits(bufsize):
+    return dict(LIMIT_SETS[0], read_bufsize=bufsize)
+
+
+def _m_streams():
+    """Hand-written multi-member bodies whose member sizes relate to the read buffer limit: (description, limits)."""
+    out = []
+
+    def add(side, coding, sizes, bufsize, framing, chunking="member", post="", eof=False):
+        if coding == "zstd" and _zstd is None:
+            return
+        start = "HTTP/1.1 200 OK\r\n" if side == "client" else "POST /p HTTP/1.1\r\nHost: a\r\n"
+        hdrs = ["Content-Encoding: " + coding] + (["Connection: close"] if eof else [])
+        pieces = [chr(65 + i) * k for i, k in enumerate(sizes)]
+        out.append(({"side": side, "pre": "", "start": start, "hdrs": hdrs, "coding": coding, "level": 3, "framing": framing,
+                     "chunking": chunking, "pieces": pieces, "post": post, "eof": eof}, _m_limits(bufsize)))
+
+    nxt = "GET /n HTTP/1.1\r\nHost: a\r\n\r\n"
+    add("client", "zstd", [16, 16, 3], 16, "cl")
+    add("server", "zstd", [4, 4, 4, 1], 4, "chunked", "member", post=nxt)
+    add("client", "zstd", [8, 8, 16, 5], 16, "chunked", "one")
+    add("server", "zstd", [2, 2, 2], 2, "cl", post=nxt)
+    add("client", "zstd", [16, 15, 17, 1], 16, "eof", eof=True)
+    add("client", "gzip", [16, 16, 3], 16, "cl")
+    add("server", "gzip", [4, 4, 1], 4, "chunked", "one", post=nxt)
+    add("client", "deflate", [2, 2, 2], 2, "eof", eof=True)
+    return out
+
+
+def _m_scenario(m, limits, cuts, mode="list"):
+    s, parts, mark, ends = _build_m(m)
+    return {"side": m["side"], "stream": s, "eof": bool(m["eof"]), "limits": limits, "mode": mode, "cuts": cuts,
+            "block": [0, len(cuts) if cuts is not None else len(s)], "accept_upgrade": False, "parts": parts, "m": m,
+            "x": {"coding": m["coding"], "upgrade": False}}
+
+
 # opaque bytes of an upgraded protocol (websocket-like frames); they contain CRLFs, so a parser that wrongly
 # goes on reading HTTP trips over them
 _FRAMES = "\x81\x03hi\r\n\x88\x02\x03\xe8\r\n\r\n"
@@ -233,6 +325,9 @@ def enumerate_cases(tier, seed):
                 for b in range(0, total, block):
                     x_doubles.append({"side": side, "stream": s, "eof": eof, "limits": lim, "mode": "double", "cuts": None,
                                       "block": [b, min(block, total - b)], "strict_class": True, "accept_upgrade": acc})
+    # multi-member / multi-frame coded bodies with member sizes at the read buffer limit: every single cut
+    for m, lim in _m_streams():
+        yield dict(_m_scenario(m, lim, None, "single"), strict_class=True)
     doubles = []
     for side, s, eof, strict in streams:
         n = len(s)
@@ -377,8 +472,87 @@ def _gen_x(rng):
             "block": [0, len(cut_sets)], "accept_upgrade": accept, "parts": parts, "x": {"coding": coding, "upgrade": upgrade}}
 
 
+_M_SHARE = 0.08   # share of seeded scenarios whose body is a multi-member / multi-frame coded stream
+
+
+def _m_cut_sets(rng, n, mark, ends, count):
+    cut_sets = []
+    for _ in range(count):
+        r = rng.random()
+        if r < 0.3 and ends:
+            # reads that end where a member / frame ends (all of them: one member per read, or some)
+            cs = sorted(ends) if rng.random() < 0.4 else sorted(set(rng.sample(ends, rng.randint(1, len(ends)))))
+            if rng.random() < 0.3:
+                cs = sorted(set(cs + [min(mark, n - 1)]))
+        elif r < 0.5 and ends:
+            # just before / behind the end of a member
+            cs = sorted(set(e + rng.choice([-1, 1, 2, -2]) for e in rng.sample(ends, rng.randint(1, len(ends)))))
+        elif r < 0.8:
+            lo = min(mark, n - 1)
+            cs = sorted(set(rng.randint(lo, n - 1) for _ in range(rng.randint(1, 4))))
+        elif r < 0.9:
+            cs = sorted(set(rng.randrange(1, max(2, n)) for _ in range(rng.randint(1, 8))))
+        else:
+            step = rng.choice([2, 3, 5, 7, 16])
+            cs = list(range(step, n, step))
+        cut_sets.append([c for c in cs if 0 < c < n] or [1])
+    return cut_sets
+
+
+def _gen_m(rng):
+    """A message whose content-coded body consists of several members (gzip / deflate) or frames (zstd) coded
+    independently, with decoded member sizes at, just below / above, a fraction or a multiple of the read buffer
+    limit (the per-step bound of the decoder's output), under each framing; cut sets at and around member ends."""
+    bufsize = rng.choice([2, 4, 16, 16, 64, 256, 1024, 65536])
+    codings = ["gzip", "deflate", "deflate-raw"] + (["zstd"] * 5 if _zstd is not None else [])
+    coding = rng.choice(codings)
+    sizes = []
+    for _ in range(rng.randint(2, 5)):
+        k = rng.choice([bufsize, bufsize, bufsize, bufsize, max(1, bufsize // 2), max(1, bufsize // 2), bufsize - 1,
+                        bufsize + 1, 2 * bufsize, 1, 3, 0 if coding != "zstd" else 1])
+        sizes.append(max(0, k))
+    uniform = rng.random() < 0.5
+    pieces = [(chr(97 + i) * k if uniform else G.body_bytes(rng, k)) for i, k in enumerate(sizes)]
+    name = coding.split("-")[0]
+    hdrs = ["Content-Encoding: " + rng.choice([name, name, name.upper()])]
+    eof = False
+    if rng.random() < 0.55:
+        side = "server"
+        framing = rng.choice(["cl", "chunked", "chunked"])
+        pre = G.serialize(G.gen_request(rng, 0, body_max=40)) if rng.random() < 0.2 else ""
+        start = "%s /p HTTP/1.1\r\nHost: h.test\r\n" % rng.choice(["POST", "PUT"])
+        post = G.serialize(G.gen_request(rng, 2, body_max=40)) if rng.random() < 0.5 else ""
+    else:
+        side = "client"
+        framing = rng.choice(["cl", "chunked", "chunked", "eof"])
+        pre = "HTTP/1.1 100 Continue\r\n\r\n" if rng.random() < 0.15 else ""
+        start = "HTTP/1.1 200 OK\r\n"
+        post = ""
+        if framing == "eof":
+            eof = True
+            hdrs.append("Connection: close")
+        elif rng.random() < 0.3:
+            post = "HTTP/1.1 204 No Content\r\n\r\n"
+    chunking = "member"
+    if framing == "chunked":
+        r = rng.random()
+        chunking = "member" if r < 0.4 else "one" if r < 0.7 else [rng.choice([1, 2, 5, 16, 64, 1000]) for _ in range(rng.randint(1, 3))]
+    m = {"side": side, "pre": pre, "start": start, "hdrs": hdrs, "coding": coding, "level": rng.choice([1, 3, 6]),
+         "framing": framing, "chunking": chunking, "pieces": pieces, "post": post, "eof": eof}
+    s, parts, mark, ends = _build_m(m)
+    return _m_scenario(m, _m_limits(bufsize), _m_cut_sets(rng, len(s), mark, ends, rng.choice([8, 16])))
+
+
 def gen(rng, tier, index):
     """Seeded part: longer generated streams, random and adversarial k-cuts."""
+    scn = _gen_plain(rng, tier, index)
+    # drawn last, so that every other scenario is what it was before these were added
+    if rng.random() < _M_SHARE:
+        return _gen_m(rng)
+    return scn
+
+
+def _gen_plain(rng, tier, index):
     if _x_selected(rng):
         return _gen_x(rng)
     if rng.random() < 0.7:
@@ -434,6 +608,31 @@ def shrink(scn):
     if scn["mode"] != "list":
         return
     cuts = scn["cuts"]
+    m = scn.get("m")
+    if m is not None:
+        # fewer members, no neighbours in the pipeline, plainer framing / data; offsets are kept where they still exist
+        cands = []
+        if len(m["pieces"]) > 1:
+            cands += [dict(m, pieces=m["pieces"][:i] + m["pieces"][i + 1:]) for i in range(len(m["pieces"]))]
+        cands += [dict(m, **{k: ""}) for k in ("pre", "post") if m[k]]
+        if m["framing"] == "chunked" and m["chunking"] != "one":
+            cands.append(dict(m, chunking="one"))
+        if m["framing"] == "chunked":
+            cands.append(dict(m, framing="cl", chunking="member"))
+        plain = [chr(97 + i) * len(p) for i, p in enumerate(m["pieces"])]
+        if plain != m["pieces"]:
+            cands.append(dict(m, pieces=plain))
+        for m2 in cands:
+            n2 = len(_build_m(m2)[0])
+            yield _m_scenario(m2, scn["limits"], [[c for c in cs if 0 < c < n2] for cs in cuts])
+        if len(cuts) > 1:
+            for i in range(len(cuts)):
+                yield dict(scn, cuts=[cuts[i]], block=[0, 1])
+        for ci, cs in enumerate(cuts):
+            if len(cs) > 0:
+                for j in range(len(cs)):
+                    yield dict(scn, cuts=cuts[:ci] + [cs[:j] + cs[j + 1:]] + cuts[ci + 1:])
+        return
     if scn.get("accept_upgrade"):
         yield dict(scn, accept_upgrade=False)
     parts = scn.get("parts")
@@ -876,6 +1075,8 @@ def run(scn, ch, log=False):
                        "reader_paused": int(bool(st["faults"].get("pause_reading"))),
                        "upgrade_taken": int(any(m[7] is not None for m in base_whole["msgs"])),
                        "upgraded_bytes_seen": int(any(m[7] for m in base_whole["msgs"])),
+                       "multi_member_body": int("m" in scn),
+                       "multi_member_zstd": int("m" in scn and scn["m"]["coding"] == "zstd"),
                        "coded_body": int(any(any(n.lower() == b"content-encoding" for n, _ in m[2]) and m[4]
                                              for m in base_whole["msgs"]))},
             "shape": f"{scn['side']}-{scn['mode']}-L{scn['limits']['max_line_size']}/{scn['limits']['max_field_size']}",
